@@ -74,7 +74,7 @@ pub static INFO: PropInfo = PropInfo {
 };
 
 pub fn run(ctx: &Ctx, out: &mut Outcome) {
-    super::run_loop(ctx, out, 480, 6_000, 17, one_run);
+    super::run_loop(ctx, out, 1200, 6_000, 17, one_run);
 }
 
 pub fn one_run(ctx: &Ctx, out: &mut Outcome, run_seed: u64) {
